@@ -18,9 +18,13 @@ class StepClock(object):
         self.epoch0 = epoch0
         self.now_us = 0
         self.reads = 0
+        self.jumps = {}      # read index -> forward step in us (clock jump / stall between two reads)
 
     def time(self):
         self.reads += 1
+        j = self.jumps.get(self.reads)
+        if j:
+            self.now_us += j
         return self.epoch0 + self.now_us / 1e6
 
     def sleep(self, d):
